@@ -825,3 +825,32 @@ def poolchain(F, R):
                 R.ob('C04.flag-test', ok, {'func': f.q, 'call': 'do_process_event_pool', 'flag_state': st})
                 if not ok:
                     R.find('C04.flag-test', f, 'pool-entry', 'do_process_event_pool is entered from %s with the processing flag %s (must be tested false first)' % (f.n, st), where=f.at(i))
+
+SEQ_NAMES = {'m_cur_seq', 'cur_seq', 'cur_seq_cnt', 'm_seq_cnt', 'seq_cnt'}
+
+@rule('seqtype')
+def seqtype(F, R):
+    """C05.seq-type: the sequence tag stored with a deferred event and the machine's current-sequence counter are compared for
+    equality to decide which events are re-offered; both operands must have the same integral type (a tag narrower than the
+    counter stops matching after wrap-around and the deferred events are never re-offered)."""
+    from rules_order import dependency_closure
+    for f in F.funcs:
+        if not is_backend(f) or not f.blocks: continue
+        hit = False
+        for i, n in enumerate(f.nodes):
+            if not n or n['k'] != 'bin' or n['op'] not in ('==', '!='): continue
+            names = set()
+            for side in (n['lhs'], n['rhs']):
+                for d in dependency_closure(f, side):
+                    m = f.nodes[d]
+                    if m and m['k'] in ('ref', 'mem'): names.add(m['n'])
+            if not (names & SEQ_NAMES): continue
+            from facts import strip_cvref
+            lt, rt = strip_cvref(F.strs[n['lt']]), strip_cvref(F.strs[n['rt']])
+            hit = True
+            ok = lt == rt
+            R.ob('C05.seq-type', ok, {'func': f.q, 'compare': f.expr(i), 'types': [lt, rt]})
+            if not ok:
+                R.find('C05.seq-type', f, 'width', 'sequence tags compared with different types (%s vs %s) in %s' % (lt, rt, f.expr(i)), where=f.at(i))
+        if hit:
+            R.seen(f); R.anchor('seq-compare:' + backend_of(f))
